@@ -222,7 +222,7 @@ pub fn run(tier: Tier, seed: u64) -> Report {
     let r = run_pbt(
         "cells",
         seed,
-        tier.pick(100_000, 2_000_000),
+        tier.pick(500_000, 10_000_000),
         || gen::cell_spec(-1, 29).boxed(),
         |spec, st| {
             st.hit(&format!("pos-class:{}", gen::POS_CLASSES[spec.pos_class as usize % 9]));
@@ -235,12 +235,12 @@ pub fn run(tier: Tier, seed: u64) -> Report {
     }
 
     // 3. hex values
-    let r = run_pbt("hex-values", seed, tier.pick(50_000, 1_000_000), hex_values, |v, st| hex_value_check(*v, st), |v| json!(v));
+    let r = run_pbt("hex-values", seed, tier.pick(200_000, 4_000_000), hex_values, |v, st| hex_value_check(*v, st), |v| json!(v));
     if !rep.absorb("hex-values", r) {
         return rep;
     }
     // 4. hex strings
-    let r = run_pbt("hex-strings", seed, tier.pick(50_000, 1_000_000), hex_strings, hex_string_check, |s| json!(s));
+    let r = run_pbt("hex-strings", seed, tier.pick(200_000, 4_000_000), hex_strings, hex_string_check, |s| json!(s));
     rep.absorb("hex-strings", r);
     rep
 }
